@@ -748,10 +748,15 @@ func (sb *seqbag) rarefySeqBag(nb int, counts map[string]int) (sample *seqbag, e
 	total := 0
 	// We copy the count map to modify it
 	tmpcounts := make(map[string]int)
-	tmpcountskeys := make([]string, len(counts))
-	i := 0
-	for k, v := range counts {
-		tmpcountskeys[i] = k
+	tmpcountskeys := make([]string, 0, len(counts))
+	for k := range counts {
+		tmpcountskeys = append(tmpcountskeys, k)
+	}
+	// Names are visited in sorted order, so that the same counts
+	// always give the same error
+	sort.Strings(tmpcountskeys)
+	for _, k := range tmpcountskeys {
+		v := counts[k]
 		if v <= 0 {
 			err = fmt.Errorf("Sequence counts must be positive")
 			return
@@ -762,10 +767,7 @@ func (sb *seqbag) rarefySeqBag(nb int, counts map[string]int) (sample *seqbag, e
 		}
 		tmpcounts[k] = v
 		total += v
-		i++
 	}
-
-	sort.Strings(tmpcountskeys)
 
 	if nb >= total {
 		err = fmt.Errorf("number of sequences to sample %d is >= sum of the counts %d", nb, total)
